@@ -1,7 +1,7 @@
 (* C06 -- Extrapolation continues the end polynomial and never rejects a finite query. *)
 From Coq Require Import List Bool Arith ZArith QArith Qcanon.
 From NI Require Import Num Base Lookup Linear Interp Spline LookupProofs LinearProofs LinearExact
-  Tri TriProofs SplineAlgebra SplineProofs SplineStruct.
+  Tri TriProofs SplineAlgebra SplineProofs SplineStruct SplineIndividual.
 Import ListNotations.
 Local Open Scope nat_scope.
 
@@ -84,6 +84,29 @@ Proof.
   exists kq. split; [exact A|]. intros x. apply B. discriminate.
 Qed.
 Print Assumptions C06_ext_value_is_end_piece_spline.
+
+(* the same for per-lane (Individual) boundaries *)
+Theorem C06_ext_value_is_end_piece_spline_individual :
+  forall (xs : list Qc) (data : list (list Qc)) (L : nat),
+    (forall i, i < length data -> length (nth i data []) = L) ->
+    StrictIncQc xs -> length xs = length data -> 3 <= length data ->
+    (Z.of_nat (length data) <= two64)%Z -> 0 < L ->
+    forall (per_lane : list (rowbc Qc)) (shape : list nat) (trail : list nat) (sp : spline_strat) (j : nat) (rb : rowbc Qc),
+      j < L -> nth_error per_lane j = Some rb ->
+      spline_build NumQc (BIndividual per_lane shape) true xs data trail = Ok sp ->
+      exists kq : list Qc,
+        (forall k, sat 0%Qc (sys_rows xs data j (fst (lane_lr rb)) (snd (lane_lr rb))) k <-> k = kq) /\
+        forall x, exists i v, lower_index NumQc xs x = Ok i /\ i + 1 < length data /\
+            spline_interp NumQc sp xs data x = Ok v /\ length v = L /\
+            nth j v 0%Qc =
+              piece (yq data j i) (kk kq i) (aq xs data j kq i) (bq xs data j kq i) (hq xs i)
+                    (x - nth i xs 0)%Qc.
+Proof.
+  intros xs data L Hw HS Hl Hn H64 HL per_lane shape trail sp j rb Hj Hrb Hsp.
+  destruct (spline_individual_correct xs data L Hw HS Hl Hn H64 HL per_lane shape true trail sp j rb Hj Hrb Hsp) as (kq & A & B).
+  exists kq. split; [exact A|]. intros x. apply B. discriminate.
+Qed.
+Print Assumptions C06_ext_value_is_end_piece_spline_individual.
 
 (* continuity across the range ends: the end piece takes the end data value at the end knot *)
 Theorem C06_ext_continuous_at_ends :
